@@ -116,6 +116,7 @@ var props = map[string]PropSpec{
 		Quick: []HarnessRun{
 			{Name: "explain.VP_C08_checker", Kind: "E", Params: map[string]int{"n": 2, "m": 2, "k": 2, "cm": 1, "ck": 2}, Bounds: "problems of <=2 clauses x <=2 literals over 2 variables; certificates of <=1 line of <=2 literals (empty clause included), arbitrary; reader and channel entry points; second identical call", Require: []string{"valid", "invalid"}},
 			{Name: "explain.VP_C08_checker", Kind: "E", Params: map[string]int{"n": 2, "m": 1, "k": 2, "cm": 2, "ck": 2}, Bounds: "problems of <=1 clause; certificates of <=2 lines", Require: []string{"valid", "invalid"}},
+			{Name: "explain.VP_C08_checker", Kind: "E", Params: map[string]int{"n": 3, "shape": 1}, Bounds: "3 variables: a unit clause and a binary clause; a certificate of a binary line followed by a line of <=1 literal", Require: []string{"valid", "invalid"}},
 			{Name: "explain.VP_C08_subset", Kind: "E", Params: map[string]int{"n": 2, "m": 3, "k": 2}, Bounds: "UnsatSubset on problems of <=3 clauses x <=2 literals over 2 variables", Require: []string{"sat", "unsat"}},
 		},
 		Thorough: []HarnessRun{
@@ -157,6 +158,8 @@ var props = map[string]PropSpec{
 			{Name: "bf.VP_C11_bf_solve", Kind: "E", Params: map[string]int{"nodes": 2, "depth": 2, "nvars": 2, "arity": 2}, Bounds: "all formula trees with <=2 connective nodes (not, and/or of arity 0..2, implies, eq, xor), depth <=2, leaves a, b, true, false; the truth-table side is decided by the solver over symbolic assignments", Require: []string{"nil", "model"}},
 			{Name: "bf.VP_C11_bf_solve", Kind: "E", Params: map[string]int{"nodes": 2, "depth": 2, "nvars": 1, "arity": 1, "uniq": 6, "consts": 0}, Bounds: "exactly-one groups of size 0..6 (auxiliary variables from 5) under not/and/or/implies/eq/xor; groups of 5 or more only at positive polarity (known finding)", Require: []string{"nil", "model"}},
 			{Name: "bf.VP_C11_bf_solve", Kind: "E", Params: map[string]int{"spine": 3, "context": 1}, Bounds: "alternation chains op(l1, op(l2, op(l3, l4))) with op in {and, or} and signed leaves, conjoined with unit literals on any subset of the variables", Require: []string{"nil", "model"}},
+			{Name: "bf.VP_C11_bf_solve", Kind: "E", Params: map[string]int{"chain": 4}, Bounds: "chains of 4 equivalences / exclusive-ors over 5 signed leaves, nested to the left or to the right (operands are duplicated by the translation, so sub-formulas repeat under different guards)", Require: []string{"model"}},
+			{Name: "bf.VP_C11_bf_solve", Kind: "E", Params: map[string]int{"wide": 6}, Bounds: "a disjunction (or conjunction) of 0..6 signed literals and one conjunction (or disjunction) of two literals placed first or last", Require: []string{"model"}},
 		},
 		Thorough: []HarnessRun{
 			{Name: "bf.VP_C11_bf_solve", Kind: "E", Params: map[string]int{"nodes": 3, "depth": 3, "nvars": 2, "arity": 2}, Bounds: "<=3 connective nodes, depth <=3", Require: []string{"nil", "model"}},
@@ -170,6 +173,8 @@ var props = map[string]PropSpec{
 		Quick: []HarnessRun{
 			{Name: "bf.VP_C12_bf_dimacs", Kind: "E", Params: map[string]int{"nodes": 2, "depth": 2, "nvars": 2, "arity": 2}, NoSample: true, Bounds: "formula trees as C11 (<=2 connectives); export parsed by the harness; (i) CNF(x,y) => f(x) decided for symbolic x, y; (ii) for every model x of f the solver is asked whether CNF(x, y) is satisfiable", Require: []string{"dimacs", "extends"}},
 			{Name: "bf.VP_C12_bf_dimacs", Kind: "E", Params: map[string]int{"spine": 4}, NoSample: true, Bounds: "alternation chains of depth 4 (and/or, signed leaves)", Require: []string{"dimacs", "extends"}},
+			{Name: "bf.VP_C12_bf_dimacs", Kind: "E", Params: map[string]int{"wide": 6}, NoSample: true, Bounds: "a disjunction (or conjunction) of 0..6 signed literals and one conjunction (or disjunction) of two literals placed first or last", Require: []string{"dimacs", "extends"}},
+			{Name: "bf.VP_C12_bf_dimacs", Kind: "E", Params: map[string]int{"chain": 3}, NoSample: true, Bounds: "chains of 3 equivalences / exclusive-ors over signed leaves", Require: []string{"dimacs", "extends"}},
 			{Name: "bf.VP_C12_bf_dimacs", Kind: "E", Params: map[string]int{"nodes": 1, "depth": 2, "nvars": 1, "arity": 1, "uniq": 6, "consts": 0, "posonly": 1}, NoSample: true, Bounds: "exactly-one groups of size 0..6 at positive polarity", Require: []string{"dimacs", "extends"}},
 		},
 		Thorough: []HarnessRun{
